@@ -11,8 +11,8 @@ CFG = dict(
               "recorder in cp01.rs + direct observation of fix_string / lint(fix) / fix(fix) / protected leaves",
     level_text="C16_case_only, C16_concrete_idempotent, C16_pass_case_only and C16_concrete_pass_stable are closed Coq theorems for "
                "every ASCII token, token sequence, memory, ignore list and option list: a fix changes only letter case, and for "
-               "upper/lower/capitalise/pascal a second crawl reports and changes nothing. For consistent only the frozen-verdict "
-               "lemma (C16_consistent_frozen_partial) is proved; one-crawl convergence is refuted for the extended option list "
+               "upper/lower/capitalise/pascal a second crawl reports and changes nothing. For consistent the frozen-verdict "
+               "lemma (C16_consistent_frozen_partial) and 'all fixes of one crawl use one single case' (C16_consistent_single_case) are proved; one-crawl convergence is refuted for the extended option list "
                "(C16_consistent_one_pass_refuted), the implementation converges because the fix loop crawls up to three times, "
                "which is observed (fix(fix)=fix, lint(fix) clean), not proved. Every recorded call of handle_segment is replayed "
                "on the model on every run.",
